@@ -191,6 +191,15 @@ func renderTypes(s []httpapi.Endpoint) string {
 		if ty := api.Contract.Return; ty != nil {
 			allTypes = append(allTypes, ty)
 		}
+		// the signatures also mention the types of the JSON form field and of the query parameters
+		if ty := api.Contract.InputForm.JSON.Type; ty != nil {
+			allTypes = append(allTypes, ty)
+		}
+		for _, param := range api.Contract.InputQueryParams {
+			if param.Type != nil {
+				allTypes = append(allTypes, param.Type)
+			}
+		}
 	}
 	return generator.WriteDeclarations(generateTypes(allTypes))
 }
